@@ -58,7 +58,7 @@ def run(ctx):
                 "six report formats NaN, (0,False), (7,False), (-3,False), (2.5,False), plain 0 on both cube types; valid_count + plain + "
                 "propagation is excluded; an int-weights stream (integer weights 0..250, sums crossing 128/256, narrow integer dtypes); the FORM of every argument varies "
                 "in about 60 % of the cases exactly as in C03 (dtype / layout / container; tags form:* in the distribution; same exclusions); "
-                "a case = one (call, format) literal; non-trivial when the cube has a cell with rows of which "
+                "a relations stream (kept cube objects mutated in place between evaluations, shared objects, repeated / re-ordered calls) and a big stream (xcube on 100 000-300 000 rows, facts 1-D and (N,K) K in 1..8, missing values in non-last columns, both policies, all six formats; vectorised NumPy oracle, no Coq literal); a case = one (call, format) literal; non-trivial when the cube has a cell with rows of which "
                 "some but not all are missing (the any/all distinction) or a cell whose valid weights sum to zero")
     ctx.trusted = list(core.STD_TRUSTED) + [
         "as C03 (NumPy primitives modelled; cubes beyond 1024 cells compared through theorem ffunc_A_direct)",
@@ -136,6 +136,8 @@ def run(ctx):
         one(ca.scale_case(rng, decimal=(i % 3 == 2)), "scale")
     for i in range(10 if thorough else 1):
         one(ca.many_columns_case(rng), "many-columns")
+    for i in range(32 if thorough else 6):
+        ca.run_big(S, ca.big_params(rng, i), ca.FORMATS)
     ctx.coverage["oracle_only_calls"] = S.oracle_only
     ctx.coverage.update({"real_calls": S.calls, "calls_compared_in_coq": len(S.lits), "cubes_with_an_any_vs_all_cell": n_mixed,
                          "distribution": dict(sorted(S.dist.items()))})
